@@ -25,6 +25,7 @@ type pubParams struct {
 	NoClose   bool    // leave the client open (the caller closes)
 	Restarts  int     // stops with AdoptSession on the same Persistence after the publish phase
 	HoldP     float64 // when non-zero: probability that the broker withholds an acknowledgement
+	Volatile  bool    // VolatileSession: the library's own in-memory store
 }
 
 func sizeOf(c *run.Ctx, bigP float64) int {
@@ -79,7 +80,13 @@ func runPubWorkload(c *run.Ctx, pp pubParams) (*Episode, *pubAnalysis, []*sim.Pu
 	if !pp.Snaps && c.Rng.Intn(3) == 0 {
 		ep.W.Store.AliasLoad = true
 	}
-	if err := ep.Init(); err != nil {
+	if pp.Volatile {
+		pp.Restarts = 0
+		if err := ep.InitVolatile(); err != nil {
+			c.Violate("init-failed", "VolatileSession: "+err.Error(), nil)
+			return ep, nil, nil
+		}
+	} else if err := ep.Init(); err != nil {
 		c.Violate("init-failed", "InitSession: "+err.Error(), nil)
 		return ep, nil, nil
 	}
@@ -231,7 +238,12 @@ func runPubWorkload(c *run.Ctx, pp pubParams) (*Episode, *pubAnalysis, []*sim.Pu
 		ep.W.WaitIdle(sim.StepTimeout)
 	}
 	collect()
-	a := analyzePubs(ep, all, final)
+	var a *pubAnalysis
+	if pp.Volatile {
+		a = analyzeVolatile(ep, all, final)
+	} else {
+		a = analyzePubs(ep, all, final)
+	}
 	if !pp.NoClose && !ep.D.CloseAndWait() {
 		c.Spoiled()
 	}
@@ -318,7 +330,7 @@ func init() {
 			return 1500
 		},
 		ChunkSize: 25,
-		Rule:      "each case is a PRNG-drawn episode: 1-24 persisted publishes (both levels, retained or not, payload 0 B-140 kB) from 1-3 goroutines against the scripted connection, reference broker and instrumented Persistence, with a budget of 0-8 connection-fatal faults (write error at a byte offset, zero-progress expiry, blackholed writes, read EOF/reset/expiry, failed dial, refused or missing CONNACK, lost acknowledgement, transient Load/Save/Delete error) plus harmless ones (short writes with expiry, fragmented reads, stalls with progress, withheld acknowledgements); then faults stop and the episode must reach idle. Non-trivial: at least one connection loss while a message was unacknowledged and a resend observed; distinct by the multiset of fault kinds fired and the numbers of connections and messages.",
+		Rule:      "each case is a PRNG-drawn episode: 1-24 persisted publishes (both levels, retained or not, payload 0 B-140 kB) from 1-3 goroutines against the scripted connection, reference broker and instrumented Persistence (a third of the episodes with a Load that hands out the stored slice itself, as the built-in store does; 1 in 6 on VolatileSession, judged on wire, exchanges and deliveries only), with a budget of 0-8 connection-fatal faults (write error at a byte offset, zero-progress expiry, blackholed writes, read EOF/reset/expiry, failed dial, refused or missing CONNACK, lost acknowledgement, transient Load/Save/Delete error) plus harmless ones (short writes with expiry, fragmented reads, stalls with progress, withheld acknowledgements); then faults stop and the episode must reach idle. Non-trivial: at least one connection loss while a message was unacknowledged and a resend observed; distinct by the multiset of fault kinds fired and the numbers of connections and messages.",
 		Assumptions: []string{
 			"faults are realistic: Close never fails, a failed Write reports fewer bytes than given, store errors have no effect, expiries occur only under an armed deadline",
 			"the broker model conforms to MQTT 3.1.1 (acknowledgements in order, retransmission only on reconnect)",
@@ -333,6 +345,10 @@ func init() {
 				Yield:   c.Rng.Intn(2) == 0,
 				SettleP: c.Rng.Float64(),
 				BigP:    0.05,
+			}
+			if c.Case%6 == 4 {
+				pp.Volatile = true
+				c.Count("volatile_session_episodes", 1)
 			}
 			ep, a, all := runPubWorkload(c, pp)
 			reportPubs(c, ep, a, all, "C01", "C08", "C15")
